@@ -329,8 +329,10 @@ func propC16(r *Run) {
 				}
 				r.Count("probe:directories-with-hundreds-of-entries")
 			}
-			tmpKind := r.Choose("tmpkind", 3) // absent, dir, dir with residue
-			if tmpKind >= 1 {
+			tmpKind := r.Choose("tmpkind", 4) // absent, dir, dir with residue, a regular file of that name
+			if tmpKind == 3 {
+				w.fs.Put(w.base()+"/.tmp", []byte("not a directory"), 0o600)
+			} else if tmpKind >= 1 {
 				w.fs.PutDir(w.base()+"/.tmp", 0o700)
 				if tmpKind == 2 {
 					w.fs.Put(w.base()+"/.tmp/123456", []byte("leftover"), 0o600)
@@ -360,7 +362,7 @@ func propC16(r *Run) {
 			var ierr error
 			w.guard("init", func() { ierr = d.Init("root", "initpw") })
 			if readable {
-				if empty && ierr != nil {
+				if empty && ierr != nil && tmpKind != 3 {
 					r.Fail("init/refused-empty", "Init on an empty directory (tmp=%d) failed: %v", tmpKind, ierr)
 				}
 				if !empty && ierr == nil {
